@@ -25,6 +25,10 @@ theorem dec_C (r : List Bytes) (c : Curl) :
     decodeCurlArgs (sCompressed :: r) .none c = decodeCurlArgs r .none { c with compressed := true } := by
   simp [decodeCurlArgs, decStep, sX, sH, sD, sResolve, sCompressed]
 
+theorem dec_G (r : List Bytes) (c : Curl) :
+    decodeCurlArgs (sGloboff :: r) .none c = decodeCurlArgs r .none { c with globoff := true } := by
+  simp [decodeCurlArgs, decStep, sX, sH, sD, sResolve, sCompressed, sGloboff]
+
 /-- a word that does not start with `-` is a URL -/
 theorem dec_url (u : Bytes) (r : List Bytes) (c : Curl) (h : u.head? ≠ some 45) :
     decodeCurlArgs (u :: r) .none c = decodeCurlArgs r .none { c with urls := c.urls ++ [u] } := by
@@ -33,7 +37,9 @@ theorem dec_url (u : Bytes) (r : List Bytes) (c : Curl) (h : u.head? ≠ some 45
   have h3 : u ≠ sD := by intro e; rw [e] at h; revert h; decide
   have h4 : u ≠ sResolve := by intro e; rw [e] at h; revert h; decide
   have h5 : u ≠ sCompressed := by intro e; rw [e] at h; revert h; decide
-  simp [decodeCurlArgs, decStep, h1, h2, h3, h4, h5, h]
+  have h6 : u ≠ sGloboff := by intro e; rw [e] at h; revert h; decide
+  have h7 : u ≠ sPathAsIs := by intro e; rw [e] at h; revert h; decide
+  simp [decodeCurlArgs, decStep, h1, h2, h3, h4, h5, h6, h7, h]
 
 theorem dec_headers : ∀ (hs : List (Bytes × Bytes)) (rest : List Bytes) (c : Curl),
     decodeCurlArgs (curlHeaderArgs hs ++ rest) .none c =
@@ -69,10 +75,31 @@ def methodArgs (r : Req) : List Bytes :=
   else if r.body ≠ .none then [sX, sGET]
   else []
 
+theorem dec_P (r : List Bytes) (c : Curl) :
+    decodeCurlArgs (sPathAsIs :: r) .none c = decodeCurlArgs r .none { c with pathAsIs := true } := by
+  simp [decodeCurlArgs, decStep, sX, sH, sD, sResolve, sCompressed, sGloboff, sPathAsIs]
+
+/-- the `--globoff` / `--path-as-is` part of the argv -/
+def globArgs (r : Req) : List Bytes :=
+  (if hasGlob r.url then [sGloboff] else []) ++ (if hasSlashDot r.url then [sPathAsIs] else [])
+
+theorem dec_glob (r : Req) (rest : List Bytes) (c : Curl) :
+    decodeCurlArgs (globArgs r ++ rest) .none c =
+      decodeCurlArgs rest .none { c with globoff := c.globoff || hasGlob r.url, pathAsIs := c.pathAsIs || hasSlashDot r.url } := by
+  unfold globArgs
+  by_cases h : hasGlob r.url = true <;> by_cases h2 : hasSlashDot r.url = true
+  · simp only [h, h2, if_true, List.cons_append, List.nil_append]
+    rw [dec_G, dec_P]; simp
+  · simp only [h, h2, if_true, Bool.false_eq_true, if_false, List.cons_append, List.nil_append, List.append_nil]
+    rw [dec_G]; simp
+  · simp only [h, h2, if_true, Bool.false_eq_true, if_false, List.cons_append, List.nil_append]
+    rw [dec_P]; simp
+  · simp [h, h2]
+
 theorem curlArgs_split (p : Bool) (addr : Option Bytes) (r : Req) :
-    curlArgs p addr r = [[99, 117, 114, 108]] ++ resolveArgs p addr r ++
+    curlArgs p addr r = [[99, 117, 114, 108]] ++ globArgs r ++ resolveArgs p addr r ++
       curlHeaderArgs (popHeaders r.host r.headers) ++ methodArgs r ++ [r.url] := by
-  cases addr <;> simp [curlArgs, resolveArgs, methodArgs, sResolve]
+  cases addr <;> simp [curlArgs, globArgs, resolveArgs, methodArgs, sResolve]
 
 theorem dec_resolve (p : Bool) (addr : Option Bytes) (r : Req) (rest : List Bytes) (c : Curl) :
     ∃ rs, decodeCurlArgs (resolveArgs p addr r ++ rest) .none c =
